@@ -1090,9 +1090,12 @@ where
                 this.ka_timer.clear(line!());
 
                 if let Some(deadline) = this.config.client_disconnect_deadline() {
-                    // start shutdown timeout if enabled
-                    this.shutdown_timer
-                        .set_and_init(cx, sleep_until(deadline.into()), line!());
+                    // start shutdown timeout if enabled; a shutdown that is already being timed
+                    // keeps its deadline
+                    if !matches!(this.shutdown_timer, TimerState::Active { .. }) {
+                        this.shutdown_timer
+                            .set_and_init(cx, sleep_until(deadline.into()), line!());
+                    }
                 } else {
                     // no shutdown timeout, drop socket
                     this.flags.insert(Flags::WRITE_DISCONNECT);
